@@ -5,7 +5,7 @@ META = dict(
     technique="explicit-state BFS over stamp-advance/process/send/restart sequences on real exchanges vs a reference timer model, per timer configuration",
     text="For every exchange class (Exchanger, a minimal Exchangent subclass), stack kind (Stack, RemoteStack), timeout in {default, 0, 0.5, 1} and "
          "redo timeout in {default, 0, 0.25, 0.5, 1} under every redo keyword spelling the constructor declares, a fresh real exchange is created, started, "
-         "and driven by all sequences of operations (advance the stack stamp by 0/0.125/0.25/0.5/1 then process(); send / transmit / message either of two distinct messages; start again with either message, also after a timeout) "
+         "and driven by all sequences of operations (advance the stack stamp by 0/0.125/0.25/0.5/1 then process(); send / transmit / message either of two distinct messages (one of them a zero-length Packet); start again with either message, also after a timeout) "
          "with the stamp advanced by 0/0.125/0.375/0.75/3 between construction and start, "
          "explored breadth first with canonical-state dedupe to a fixpoint; after every operation the packets queued on the stack and the done/failed "
          "flags are compared with a plain reference model of the two timers.",
@@ -78,7 +78,7 @@ class Run:
 
     def __init__(self, cfg, history):
         from ioflo.aio.proto import exchanging, stacking, devicing, packeting
-        cls, skind, T, R, spelling, gap = cfg
+        cls, skind, T, R, spelling, gap, payload = cfg
         self.cfg = cfg
         self.diverged = None       # (group, what)
         self.construct_error = None
@@ -87,7 +87,9 @@ class Run:
             self.device = devicing.Device(stack=self.stack, uid=7, name="peer", ha="peerha")
         else:       # RemoteStack.message() needs a destination remote
             self.device = self.stack.addRemote(devicing.RemoteDevice(stack=self.stack, uid=7, name="peer", ha="peerha"))
-        self.pk = {m: packeting.Packet(stack=self.stack, packed=m.encode("ascii")) for m in MSGS}
+        # payload kinds: one message is an ordinary packet, the other a zero-length packet (packeting.Packet(stack), a poke);
+        # messages are told apart by identity.  `payload` says which of the two is the empty one.
+        self.pk = {m: packeting.Packet(stack=self.stack, packed=b"" if m == payload else m.encode("ascii")) for m in MSGS}
         self.label = {id(p): m for m, p in self.pk.items()}
 
         if cls == "Exchanger":
@@ -189,8 +191,9 @@ class Run:
 
 
 def cfg_str(cfg, spelled=True):
-    cls, skind, T, R, spelling, gap = cfg
-    return "%s(stack=%s, timeout=%r, %s=%r)%s" % (cls, skind, T, spelling, R, " started %r after construction" % gap if gap else "")
+    cls, skind, T, R, spelling, gap, payload = cfg
+    return "%s(stack=%s, timeout=%r, %s=%r)%s%s" % (cls, skind, T, spelling, R, " started %r after construction" % gap if gap else "",
+                                                   "" if payload == "m2" else " [%s is the zero-length packet]" % payload)
 
 
 def hist_str(history):
@@ -268,7 +271,8 @@ def configs():
                         for gap in GAPS:
                             if gap and skind != "Stack" and QUICK:
                                 continue          # gaps on one stack kind in the quick tier
-                            out.append((cls, skind, T, R, sp, gap))
+                            for payload in (("m2",) if QUICK or gap else ("m2", "m1")):
+                                out.append((cls, skind, T, R, sp, gap, payload))
     return spellings, out
 
 
@@ -285,6 +289,8 @@ def run():
     ck.coverage_extra = dict(configurations=len(cfgs), redo_keyword_spellings=spellings, deltas=DELTAS,
                              construct_to_start_gaps=GAPS, timeouts=[repr(t) for t in TIMEOUTS], redo_timeouts=[repr(r) for r in REDOS], max_depth=MAX_DEPTH)
     ck.assumptions = [
+        "messages are Packet objects (Exchange.send/transmit hand them to stack.transmit, which calls pkt.pack()); m2 is a zero-length packeting.Packet "
+        "(falsy: len 0), m1 an ordinary one (thorough also the other way round); a zero-length packet is a message like any other",
         "process() is the only point where timers are observed: at each call the exchange fails if the overall timeout has elapsed, otherwise "
         "retransmits its latest message exactly once if the redo interval has elapsed since the start or the last retransmission (interval restarts at that call)",
         "a redo keyword spelling is only exercised if Exchange.__init__ declares it (redoTimeout, or the pinned tree's redoTimout)",
